@@ -693,3 +693,17 @@ package core
 //@   requires svalid(s)
 //@   requires [both-positions-found] bpos >= 0 && epos >= 0
 //@   assigns s.active, s.surrounds
+
+// SelectBlankWord (the blank-delimited word around a position; what the completion engine takes as the word
+// being completed): safety and range only, the regexp classification of characters is assumed total.
+//@ func (*Line).SelectBlankWord
+//@   props C14 C01
+//@   terminates
+//@   requires l != nil
+//@   pure
+//@   ensures len(*l) == 0 ==> bpos == 0 && epos == 0
+//@   ensures len(*l) > 0 ==> 0 <= bpos && bpos <= clampi(pos, len(*l)) + 1 && bpos <= len(*l) && 0 <= epos && epos < len(*l)
+//@   loop 1 invariant -1 <= bpos && bpos <= pos && 0 <= pos && pos < len(*l) && epos == pos && blankWordRgx != nil
+//@   loop 1 decreases bpos + 1
+//@   loop 2 invariant 0 <= pos && pos <= epos && epos <= len(*l) && -1 <= bpos && bpos <= pos && blankWordRgx != nil
+//@   loop 2 decreases len(*l) - epos
